@@ -16,5 +16,45 @@ package syntax
 //@ func mask(ctx, arg)
 //@   tags C13, C10
 //@   assigns fresh-only
+//@   modifies enset, enseen, encur, enord, enpos, rel.arrayValueEnumerator
 //@   returns (r, err)
 //@   ensures[C13] notset: !(arg is rel.Set) ==> err != nil
+//@   ensures[C13] notnum: (arg is rel.Set && err == nil) ==> (forall x: Val :: mem2(arg, x) ==> x is rel.Number)
+// every enumerated member k (each member exactly once: enumerator contract of 35_sets.spec) adds exactly 2^k
+//@   loop 0 ensures[C13] addpow: same(total, fadd(prev(total), fpow2(encur[e].(rel.Number))))
+//@   loop 0 invariant[C13] nums: forall x: Val :: enseen[e][x] ==> x is rel.Number
+//@   loop 0 invariant en: enset[e] == arg
+
+// ---- //encoding.csv (syntax/std_encoding_csv.go) ------------------------------------------------------------------
+// The repo code around the encoding/csv dependency. The dependency itself is ASSUMED (extern contracts in
+// /verif/specs/80_codec.spec: Reader.Read hands out a slice of strings, Writer.WriteAll consumes the records it is
+// given); what is PROVED is that the repo code passes every cell through unchanged in both directions.
+// cellIs(v, str): the value v is the arr.ai string made of exactly the runes of the Go string str, at offset 0
+// (what rel.NewString([]rune(str)) is: no trimming, no stripping, no re-ordering); the empty cell is the empty set
+//@ spec cellIs(v, str) = runeCnt(str) == 0 ? v is rel.EmptySet : (v is rel.String && v.(rel.String).offset == 0 && len(v.(rel.String).s) == runeCnt(str) && (forall q in 0..runeCnt(str) :: v.(rel.String).s[q] == runeOfStr(str, q)))
+
+//@ func csvDecodeFnBody(fn, value, config)
+//@   tags C13, C10
+//@   returns (r, err)
+//@   ensures[C13] kind: !(value is rel.String || value is rel.Bytes) ==> err != nil
+//@   loop 0 invariant rowsnn: forall k in 0..len(rows) :: rows[k] != nil
+//@   loop 1 invariant rownn: len(row) == len(record) && (forall k in 0..$idx :: row[k] != nil)
+//@   loop 1 invariant rowskeep: forall k in 0..len(rows) :: rows[k] != nil
+// every iteration stores, at the cell's own position, the arr.ai string of exactly the runes of the cell handed out by
+// the csv reader (per-iteration postcondition: an extra transformation of `item` fails it)
+//@   loop 1 ensures[C13] cell: cellIs(row[j], record[j])
+
+// Encode: every cell of every row is handed to the csv writer as the Go string of exactly its runes, at its own
+// position; a value the format cannot represent (a row or cell that is not an array / string) is an error.
+//@ func csvEncodeFnBody(fn, arg, config)
+//@   tags C13, C10
+//@   returns (r, err)
+//@   ensures[C13] kind: !(arg is rel.Array || arg is rel.EmptySet) ==> err != nil
+//@   loop 0 invariant recs: len(records) == arr.count
+//@   loop 1 invariant rec: len(record) == rowArray.count
+//@   loop 1 invariant[C13] cells: forall k in 0..$idx :: rowArray.values[k] is rel.String ==> record[k] == strOf(rowArray.values[k].(rel.String))
+//@   loop 1 ensures[C13] cell: rowArray.values[j] is rel.String ==> record[j] == strOf(rowArray.values[j].(rel.String))
+// a cell the format has no place for (a string with an offset) must not be accepted and silently written at offset 0
+// (it is: finding; `s.String()` drops the offset)
+//@   loop 1 ensures[C13] celloffset: rowArray.values[j] is rel.String ==> rowArray.values[j].(rel.String).offset == 0
+//@   loop 0 ensures[C13] row: len(records[i]) == rowArray.count && (forall k in 0..len(rowArray.values) :: rowArray.values[k] is rel.String ==> records[i][k] == strOf(rowArray.values[k].(rel.String)))
